@@ -5,6 +5,7 @@ import (
 	"fmt"
 	"math"
 	"strconv"
+	"strings"
 
 	"github.com/ozanh/ugo"
 	"github.com/ozanh/ugo/parser"
@@ -90,10 +91,12 @@ func runWithOutput(src []byte, opts ugo.CompilerOptions, globalsSrc *Sexp, args 
 	if err != nil {
 		cls := "compile-error"
 		var oe *ugo.OptimizerError
-		if asOptimizerError(err, &oe) {
+		txt := err.Error()
+		if asOptimizerError(err, &oe) ||
+			(strings.Contains(txt, "Optimizer Error") && !strings.Contains(txt, "Compile Error") && !strings.Contains(txt, "Parse Error")) {
 			cls = "optimizer-error"
 		}
-		return L(A(cls), A(sanitize(firstLine(err.Error()))))
+		return L(A(cls), A(sanitize(firstLine(txt))))
 	}
 	var out bytes.Buffer
 	old := ugo.PrintWriter
